@@ -15,7 +15,7 @@ assert rc == 0, out
 res = {"property": pid, "variant": var}
 try:
     txt = open(f"{seed}/demo_cargo.txt").read()
-    m = re.search(r"\[\[test\]\]\s*\nname\s*=\s*\"([^\"]+)\"(?:\s*\npath\s*=\s*\"[^\"]+\")?\s*\nrequired-features\s*=\s*\[([^\]]*)\]", txt)
+    m = re.search(r"\[\[test\]\]\s*name\s*=\s*\"([^\"]+)\"(?:\s*path\s*=\s*\"[^\"]+\")?\s*required-features\s*=\s*\[([^\]]*)\]", txt)
     if m:
         name = m.group(1)
         feats = ",".join(f.strip().strip('"') for f in m.group(2).split(",") if f.strip())
